@@ -39,6 +39,9 @@ def rv(rng):
     return rng.choice(VALS) if rng.random() < 0.5 else f2b(rng.uniform(-10, 10))
 
 
+IDENT6 = [f2b(1.0), 0, 0, f2b(1.0), 0, 0]
+
+
 def gen_cases(rng, tier):
     cases = []
     n = 4000 if tier == "quick" else 60000
@@ -79,6 +82,33 @@ def gen_cases(rng, tier):
         for _ in range(rng.randint(1, 2)):
             pts += [f2b(rng.uniform(0, 12)) for _ in range(6)]
         cases.append(("c18", [7] + t + [f2b(rng.choice([1.5, 3.0, 6.0])), i % 2] + pts))
+    # fn 6 at extreme magnitudes: a tiny path scaled up / a huge path scaled down to a few pixels
+    for i in range(60 if tier == "quick" else 800):
+        if i % 2 == 0:
+            u = rng.choice([2e-4, 1e-4, 2.4e-4, 1e-6])
+            sc = rng.uniform(8, 30) / u
+            t = [f2b(sc), 0, 0, f2b(sc), f2b(rng.uniform(0, 8)), f2b(rng.uniform(0, 8))]
+            if i % 4 == 0:
+                t = [0, f2b(sc), f2b(-sc), 0, f2b(rng.uniform(30, 38)), f2b(rng.uniform(0, 8))]
+            pts = [f2b(v) for v in (0.0, 0.0, u, 0.0, u, u * rng.uniform(0.5, 1.0), 0.0, u)]
+        else:
+            u = rng.choice([2e38, 1e38, 3e37])
+            sc = rng.uniform(8, 30) / u
+            t = [f2b(sc), 0, 0, f2b(sc), f2b(rng.uniform(0, 8)), f2b(rng.uniform(0, 8))]
+            pts = [f2b(v) for v in (0.0, 0.0, u, 0.0, u, u * rng.uniform(0.5, 1.0), 0.0, u)]
+        cases.append(("c18", [6] + t + [(i // 2) % 2] + pts))
+    # fn 8: fill_rect / draw_pixmap with a shader under whole-pixel translations, fractional translations, scales
+    for i in range(200 if tier == "quick" else 3000):
+        k = i % 4
+        if k == 0:
+            t = [f2b(1.0), 0, 0, f2b(1.0), f2b(float(rng.randint(-5, 20))), f2b(float(rng.randint(-5, 15)))]
+        elif k == 1:
+            t = [f2b(1.0), 0, 0, f2b(1.0), f2b(rng.uniform(-5, 20)), f2b(rng.uniform(-5, 15))]
+        elif k == 2:
+            t = [f2b(rng.choice([2.0, 0.5, 1.5])), 0, 0, f2b(rng.choice([1.0, 2.0])), f2b(float(rng.randint(0, 10))), f2b(float(rng.randint(0, 10)))]
+        else:
+            t = list(IDENT6)
+        cases.append(("c18", [8] + t + [rng.randrange(2), rng.randint(-3, 20), rng.randint(-3, 15), rng.randint(1, 25), rng.randint(1, 20), int(rng.random() < 0.3)]))
     return cases
 
 
@@ -162,6 +192,11 @@ def oracle(suite, args, out):
         if o and o[0] > 0:
             return "drawing with the transform differs from drawing the pre-transformed path in %d bytes" % o[0]
         return None
+    if k == 8:
+        if o and o[0] > 0:
+            return "%s with a transform differs from the same geometry drawn as a path / with the offset folded into the transform in %d bytes (the shader does not follow the transform)" % (
+                "draw_pixmap" if args[12] else "fill_rect", o[0])
+        return None
     return None
 
 
@@ -177,7 +212,7 @@ def relation(suite, args, mo, io):
 def nontrivial_tag(suite, args, out):
     if args[0] == 1 and out not in ("-1",):
         return "invert:some"
-    if args[0] in (6, 7):
+    if args[0] in (6, 7, 8):
         return "draw%d" % args[0]
     if args[0] in (2, 3):
         return "fn%d" % args[0]
